@@ -5,7 +5,9 @@
 // CONTRACT at this level (listed in evidence); the per-shard behaviour they summarise is what the shard_* groups prove
 // (modulo R2, get_shard routing and lazy expiry).
 verus! {
-pub struct EngineModel { pub ds: Ghost<DS> }
+/// `ds`: (db, key) -> abstract value. `ttl`: the keys that carry a time-to-live, with the duration (ns) asked for when it was set
+/// (only the contracts of the TTL-aware methods further down speak about `ttl`; remaining time is the engine's business, C02 shard units)
+pub struct EngineModel { pub ds: Ghost<DS>, pub ttl: Ghost<Map<(int, Seq<u8>), int>> }
 pub open spec fn wt() -> FerrousError { FerrousError::Storage(StorageError::WrongType) }
 pub open spec fn dv_of(v: Value) -> DV {
     match v {
@@ -33,7 +35,7 @@ pub open spec fn res_arr(r: Result<Vec<Vec<u8>>>, rv: RV) -> bool {
 impl EngineModel {
     #[verifier::external_body]
     pub fn get(&mut self, db: usize, key: &[u8]) -> (r: Result<GetResult>)
-        ensures final(self).ds@ == old(self).ds@,
+        ensures final(self).ds@ == old(self).ds@, final(self).ttl@ == old(self).ttl@,
             match ds_get(old(self).ds@, db as int, key@) {
                 None => r matches Ok(g) && (g is NotFound || g is Expired),
                 Some(dv) => r matches Ok(GetResult::Found(v)) && dv_of(v) == dv,
@@ -41,7 +43,7 @@ impl EngineModel {
     { unimplemented!() }
     #[verifier::external_body]
     pub fn get_string(&mut self, db: usize, key: &[u8]) -> (r: Result<Option<Vec<u8>>>)
-        ensures final(self).ds@ == old(self).ds@,
+        ensures final(self).ds@ == old(self).ds@, final(self).ttl@ == old(self).ttl@,
             match ds_get(old(self).ds@, db as int, key@) {
                 None => r matches Ok(None),
                 Some(DV::Str(b)) => r matches Ok(Some(v)) && v@ == b,
@@ -164,4 +166,81 @@ pub fn verif_bulk_frames_set(v: Vec<Vec<u8>>) -> (r: Vec<RespFrame>)
 pub fn verif_bulk_frames(v: Vec<Vec<u8>>) -> (r: Vec<RespFrame>)
     ensures r@.len() == v@.len(), forall|i: int| 0 <= i < v@.len() ==> bulk_reply(#[trigger] r@[i]) == Some(Some(v@[i]@)),
 { v.into_iter().map(|e| RespFrame::from_bytes(e)).collect() }
+
+// ---- key-space and TTL-aware methods (used by the server.rs handler units); same status: ASSUMED CONTRACTS summarising shard_core
+pub uninterp spec fn remaining_ns(m: EngineModel, db: int, k: Seq<u8>) -> int;
+pub open spec fn res_i64(r: Result<i64>, rv: RV) -> bool {
+    match rv { RV::Int(n) => r matches Ok(v) && v == n, RV::WrongType => r matches Err(e) && e == wt(), RV::OtherErr => r matches Err(e) && e != wt(), _ => false }
+}
+impl EngineModel {
+    #[verifier::external_body]
+    pub fn exists(&mut self, db: usize, key: &[u8]) -> (r: Result<bool>)
+        ensures final(self).ds@ == old(self).ds@, final(self).ttl@ == old(self).ttl@, r matches Ok(b) ==> b == old(self).ds@.contains_key((db as int, key@)),
+    { unimplemented!() }
+    #[verifier::external_body]
+    pub fn delete(&mut self, db: usize, key: &[u8]) -> (r: Result<bool>)
+        ensures
+            r matches Ok(b) ==> b == old(self).ds@.contains_key((db as int, key@)) && final(self).ds@ == old(self).ds@.remove((db as int, key@)) && final(self).ttl@ == old(self).ttl@.remove((db as int, key@)),
+            r is Err ==> final(self).ds@ == old(self).ds@ && final(self).ttl@ == old(self).ttl@,
+    { unimplemented!() }
+    #[verifier::external_body]
+    pub fn incr_by(&mut self, db: usize, key: Vec<u8>, increment: i64) -> (r: Result<i64>)
+        ensures res_i64(r, spec_incrby(old(self).ds@, db as int, key@, increment).0), final(self).ds@ == spec_incrby(old(self).ds@, db as int, key@, increment).1, final(self).ttl@ == old(self).ttl@,
+    { unimplemented!() }
+    #[verifier::external_body]
+    pub fn incr(&mut self, db: usize, key: Vec<u8>) -> (r: Result<i64>)
+        ensures res_i64(r, spec_incrby(old(self).ds@, db as int, key@, 1).0), final(self).ds@ == spec_incrby(old(self).ds@, db as int, key@, 1).1, final(self).ttl@ == old(self).ttl@,
+    { unimplemented!() }
+    /// SET semantics at the engine: value replaced, any TTL removed (named differently from `set_string` above only because that
+    /// older contract is silent about `ttl`; RCALL maps `set_string` here in the TTL-aware units)
+    #[verifier::external_body]
+    pub fn set_string_t(&mut self, db: usize, key: Vec<u8>, value: Vec<u8>) -> (r: Result<()>)
+        ensures r is Ok ==> final(self).ds@ == old(self).ds@.insert((db as int, key@), DV::Str(value@)) && final(self).ttl@ == old(self).ttl@.remove((db as int, key@)),
+            r is Err ==> final(self).ds@ == old(self).ds@ && final(self).ttl@ == old(self).ttl@,
+    { unimplemented!() }
+    #[verifier::external_body]
+    pub fn set_string_ex(&mut self, db: usize, key: Vec<u8>, value: Vec<u8>, expires_in: Duration) -> (r: Result<()>)
+        ensures r is Ok ==> final(self).ds@ == old(self).ds@.insert((db as int, key@), DV::Str(value@)) && final(self).ttl@ == old(self).ttl@.insert((db as int, key@), dur_nanos(expires_in)),
+            r is Err ==> final(self).ds@ == old(self).ds@ && final(self).ttl@ == old(self).ttl@,
+    { unimplemented!() }
+    #[verifier::external_body]
+    pub fn set_string_nx(&mut self, db: usize, key: Vec<u8>, value: Vec<u8>) -> (r: Result<bool>)
+        ensures
+            r matches Ok(b) ==> b == !old(self).ds@.contains_key((db as int, key@)),
+            r == Ok::<bool, FerrousError>(true) ==> final(self).ds@ == old(self).ds@.insert((db as int, key@), DV::Str(value@)) && final(self).ttl@ == old(self).ttl@.remove((db as int, key@)),
+            !(r == Ok::<bool, FerrousError>(true)) ==> final(self).ds@ == old(self).ds@ && final(self).ttl@ == old(self).ttl@,
+    { unimplemented!() }
+    #[verifier::external_body]
+    pub fn set_string_nx_ex(&mut self, db: usize, key: Vec<u8>, value: Vec<u8>, expires_in: Duration) -> (r: Result<bool>)
+        ensures
+            r matches Ok(b) ==> b == !old(self).ds@.contains_key((db as int, key@)),
+            r == Ok::<bool, FerrousError>(true) ==> final(self).ds@ == old(self).ds@.insert((db as int, key@), DV::Str(value@)) && final(self).ttl@ == old(self).ttl@.insert((db as int, key@), dur_nanos(expires_in)),
+            !(r == Ok::<bool, FerrousError>(true)) ==> final(self).ds@ == old(self).ds@ && final(self).ttl@ == old(self).ttl@,
+    { unimplemented!() }
+    #[verifier::external_body]
+    pub fn expire(&mut self, db: usize, key: &[u8], expires_in: Duration) -> (r: Result<bool>)
+        ensures final(self).ds@ == old(self).ds@,
+            r matches Ok(b) ==> b == old(self).ds@.contains_key((db as int, key@)) && final(self).ttl@ == (if b { old(self).ttl@.insert((db as int, key@), dur_nanos(expires_in)) } else { old(self).ttl@ }),
+            r is Err ==> final(self).ttl@ == old(self).ttl@,
+    { unimplemented!() }
+    /// remaining time: Some exactly for a present key that carries a TTL (how much remains is the engine's, C02 `ttl` unit)
+    #[verifier::external_body]
+    pub fn ttl(&mut self, db: usize, key: &[u8]) -> (r: Result<Option<Duration>>)
+        ensures final(self).ds@ == old(self).ds@, final(self).ttl@ == old(self).ttl@,
+            r matches Ok(o) ==> (o is Some) == (old(self).ds@.contains_key((db as int, key@)) && old(self).ttl@.contains_key((db as int, key@))),
+            // the time that remains is a function of the engine state and the clock (uninterpreted here; exact in C02's `ttl` unit);
+            // a difference of two Instants: far below the u64 range of whole seconds
+            r matches Ok(Some(t)) ==> dur_nanos(t) == remaining_ns(*old(self), db as int, key@) && dur_nanos(t) <= 9_000_000_000_000_000_000 * 1_000_000_000,
+    { unimplemented!() }
+    /// RENAME at the engine (both shard branches are units in shard_sweeper): value and TTL move to the new name
+    #[verifier::external_body]
+    pub fn rename(&mut self, db: usize, old_key: &[u8], new_key: Vec<u8>) -> (r: Result<()>)
+        ensures
+            !old(self).ds@.contains_key((db as int, old_key@)) ==> r is Err && final(self).ds@ == old(self).ds@ && final(self).ttl@ == old(self).ttl@,
+            old(self).ds@.contains_key((db as int, old_key@)) ==> r is Ok
+                && final(self).ds@ == old(self).ds@.remove((db as int, old_key@)).insert((db as int, new_key@), old(self).ds@[(db as int, old_key@)])
+                && final(self).ttl@ == (if old(self).ttl@.contains_key((db as int, old_key@)) { old(self).ttl@.remove((db as int, old_key@)).insert((db as int, new_key@), old(self).ttl@[(db as int, old_key@)]) }
+                                        else { old(self).ttl@.remove((db as int, old_key@)).remove((db as int, new_key@)) }),
+    { unimplemented!() }
+}
 }
